@@ -30,11 +30,15 @@ def run(rec):
                     arr = orig_ra(*a, **kw)
                     state.setdefault('ops', []).append((arr, arr.copy(deep=False), arr.copy(deep=True)))
                     return arr
-                gen.random_array = ra
+                def note(arr):
+                    state.setdefault('ops', []).append((arr, arr.copy(deep=False), arr.copy(deep=True)))
+                    return arr
+                orig_note = gen.note_operand
+                gen.random_array, gen.note_operand = ra, note
                 try:
                     ok, c = rec.guarded(f'{op.__name__}:exception', lambda: op(rng, chinfo, dtype), {'op': op.__name__})
                 finally:
-                    gen.random_array = orig_ra
+                    gen.random_array, gen.note_operand = orig_ra, orig_note
                 if not ok or c is None:
                     continue
                 for arr, shallow, deep in state.get('ops', []):
